@@ -520,6 +520,31 @@ fn main() {
                 }
             }
         }
+        #[cfg(feature = "cb-std")]
+        "tiny" => {
+            // one- and two-byte elements that are Clone but not Copy, with per-value clone / destructor counts (C12, C03)
+            let thorough = arg(&args, "--tier").as_deref() == Some("thorough");
+            let t0 = Instant::now();
+            let (evals, nontrivial, samples, failure) = cbverif::tiny_engine::run(thorough);
+            let mut rep = json!({"evaluations": evals, "distinct_nontrivial": nontrivial, "samples": samples, "wall_s": t0.elapsed().as_secs_f64()});
+            if let Some((c, m)) = failure {
+                rep["failure"] = json!({"case": serde_json::to_value(&c).unwrap(), "message": m, "rendered": format!("{c:?}")});
+            }
+            std::fs::write(arg(&args, "--out").expect("--out"), serde_json::to_string_pretty(&rep).unwrap()).unwrap();
+        }
+        #[cfg(feature = "cb-std")]
+        "replay-tiny" => {
+            let text = std::fs::read_to_string(&args[2]).expect("read replay file");
+            let v: serde_json::Value = serde_json::from_str(&text).expect("replay file is not JSON");
+            let c: cbverif::tiny_engine::TCase = serde_json::from_value(v["case"].clone()).expect("case");
+            match cbverif::tiny_engine::run_tcase(&c) {
+                Ok(_) => println!("ok"),
+                Err(m) => {
+                    println!("FAIL {m}");
+                    std::process::exit(1);
+                }
+            }
+        }
         "alloc" => {
             cbverif::watch::start(60);
             use cbverif::alloc_engine as ae;
